@@ -168,7 +168,7 @@ def with_tags(v, tags):
         return Adt(v.name, v.variant, v.fields, v.tags | tags)
     if isinstance(v, Int):
         r = Int(v.w, v.signed, val=v.val, bits=v.bits, tags=v.tags | tags, kind=v.kind) if v.val is not None else \
-            Int(v.w, v.signed, bits=v.bits, tags=v.tags | tags, kind=v.kind)
+            Int(v.w, v.signed, bits=v.bits, tags=v.tags | tags, kind=v.kind, aff=v.aff)
         return r
     if isinstance(v, Ref):
         return Ref(v.cell, v.path, v.off, v.len, v.tags | tags)
@@ -501,6 +501,8 @@ class Interp:
                     d = self.discr_of(a)
                     return Int(it[0], it[1], val=d)
                 if isinstance(a, Opaque):
+                    if "pop" in a.info:
+                        return Opaque(rv["ty"], a.tags, a.info)
                     return self.abstract_of(rv["ty"], a.tags)
                 raise Unsupported("int cast of %r" % (a,))
             if ck.startswith("coerce") or ck in ("ptr2ptr", "Subtype"):
@@ -616,6 +618,17 @@ class Interp:
             return with_tags(r, t) if t else r
         if op in ("Eq", "Ne") and isinstance(a, Adt) and isinstance(b, Adt) and not a.fields and not b.fields:
             return mkbool((a.variant == b.variant) == (op == "Eq"))
+        if op in ("Add", "AddUnchecked") and (isinstance(a, Opaque) or isinstance(b, Opaque)):
+            # sums of population counts stay exact: the multiset of counted bit terms
+            def pop_of(x):
+                if isinstance(x, Opaque) and "pop" in x.info:
+                    return list(x.info["pop"])
+                if isinstance(x, Int) and x.is_conc() and x.val == 0:
+                    return []
+                return None
+            pa, pb = pop_of(a), pop_of(b)
+            if pa is not None and pb is not None:
+                return Opaque(dest_ty, tags_of(a) | tags_of(b), {"pop": pa + pb, "w": 0})
         if isinstance(a, Opaque) or isinstance(b, Opaque):
             if self.h is not None:
                 r = self.h.opaque_binop(self, op, a, b, dest_ty)
